@@ -14,9 +14,13 @@ pub fn set_rpc_yield(cb: Option<Arc<YieldCb>>) {
     *slot = cb;
 }
 
+thread_local! {
+    pub static SUPPRESS_POINTS: std::cell::Cell<bool> = const { std::cell::Cell::new(false) };
+}
+
 /// Every call into the simulated node passes here first: it is a crash point and a scheduling point.
 pub fn rpc_point(site: &'static str) {
-    if std::thread::panicking() {
+    if std::thread::panicking() || SUPPRESS_POINTS.with(|c| c.get()) {
         return;
     }
     teos_common::verif::crash_point(site);
